@@ -65,6 +65,27 @@ CHECKS = {
              "TLC checks exact grids, per-group and total proton linkage by mean-value intervals over reported charges, the "
              "optimum as first minimum, both ranges, and the printed folding table and optimum line.",
         design="5/C10"),
+    "C01": dict(
+        engine="PdbReader",
+        technique="TLA+ reader mechanism vs declarative chain-start/census spec model-checked by TLC; TLC-generated record "
+                  "sequences replayed into get_atom_lines_from_pdb; full-run records trace-validated by TLC (DeclCensus)",
+        text="TLC checks the reader's terminus/conformation tagging against the statement's definition of chain starts for all "
+             "well-formed record sequences (<= 4/5 records over 2 chains x 2 numbers x insertion codes; richer alphabet <= 3/4), "
+             "every sequence is replayed through the real reader (plus simulated sequences to length 14); for full runs over test "
+             "structures, fragments and constructed terminus/label layouts x chain selection x titrate-only, TLC computes the "
+             "declared census from the residue-level input and compares it with every conformation, the average, the summary "
+             "rows, model pKa values, bridged cysteines and ligand/ion configuration.",
+        design="5/C01"),
+    "C02": dict(
+        engine="Determinants",
+        technique="TLA+ calculate_pka control-flow spec with dirty set model-checked by TLC; group records and parsed .pka of "
+                  "real runs trace-validated by TLC (sum identity, rendering)",
+        text="TLC explores all interleavings of scoring, totals, sharing, penalising and removal for 3 groups under the four "
+             "parameter settings (and refutes the pinned tree's conditional recomputation as a self-test); on real runs over "
+             "structures x options x five parameter files TLC checks pKa = model + desolvation + listed determinants for every "
+             "group of every conformation and the average, and that table rows, stars-free values and summary of the .pka "
+             "file render exactly those numbers.",
+        design="5/C02"),
 }
 
 NOT_APPLICABLE = {}
